@@ -99,6 +99,16 @@ def raw_entries(rnd, domain, k):
             out.append([a, b, lab])
         else:
             out.append([ts[0], lab])
+    if k == "I" and out and domain == "dec" and rnd.random() < 0.25:
+        # a neighbour that starts a few ulps BEFORE (overlap by rounding noise: must be refused) or after the end of an entry
+        # (round 3, C05-v2: the constructor's overlap test made tolerant)
+        import math
+        e = rnd.choice(out)
+        if e[0] < e[1]:
+            s0 = e[1]
+            for _ in range(rnd.randint(1, 3)):
+                s0 = math.nextafter(s0, rnd.choice([-math.inf, -math.inf, math.inf]))
+            out.append([s0, s0 + rnd.choice([0.5, 1.25]), "n"])
     rnd.shuffle(out)
     return out
 
